@@ -1200,6 +1200,16 @@ func (ev *Evaluator) decided(c *Term) *Term {
 	if base.Op == "not" {
 		base, neg = base.Args[0], true
 	}
+	if base.Op == "a" {
+		// a boolean field or parameter the rule fixes (a mode flag)
+		if v, ok := ev.assume[base.Key()]; ok {
+			if v != neg {
+				return K(1)
+			}
+			return K(0)
+		}
+		return c
+	}
 	if base.Op != "cmp" {
 		return c
 	}
